@@ -515,6 +515,13 @@ def check(ctx, rep, rule):
             pm = sorted((c for c in comp if c in pinned_lib), key=lambda c: (-indeg[c], c))
             if pm:
                 rep_member = pm[0]
+        # a recursion that is already on record keeps the name it is recorded under as long as that function is part of it
+        # (which member is called from most others changes with every helper that is moved)
+        for c in sorted(comp):
+            if c in pinned_lib if pinned_lib is not None else False:
+                if c.split('::')[-1] in _recorded_cycles():
+                    rep_member = c
+                    break
         name = 'cycle through %s' % rep_member.split('::')[-1]
         members = ', '.join(c.split('::')[-1] for c in comp[:8])
         if all(c.startswith(P) or c == 'parser::parse' for c in comp):
@@ -556,6 +563,25 @@ def check(ctx, rep, rule):
                     'recursion {%s} over a data structure whose depth follows the nesting of the input (no depth limit): a deeply nested '
                     'program exhausts the host stack' % members, None)
     rep.count('recursion_sccs', nscc)
+
+
+_REC = []
+
+
+def _recorded_cycles():
+    if not _REC:
+        import json, os, re as _re
+        names = set()
+        try:
+            k = json.load(open(os.path.join(os.path.dirname(os.path.dirname(os.path.abspath(__file__))), 'known_findings.json')))
+            for f in k.get('findings', []):
+                m = _re.search(r'cycle through (\w+)', f.get('key', ''))
+                if m:
+                    names.add(m.group(1))
+        except Exception:
+            pass
+        _REC.append(names)
+    return _REC[0]
 
 
 def tarjan(g):
